@@ -8,6 +8,9 @@ A trace is a list of ops applied to a set of replicas of one DB:
   queries   ('LS',) ('LK',key) ('LC',) ('LR',addr) ('LT',[ids]) ('H',) ('SNAP',)
   control   ('FORK',)   snapshot replica A and install it into a NEW replica that then
                         receives every later op (C03: restored replicas must agree)
+            ('LAGSTART',) ... ('CATCHUP',)   a follower replica L that received every op so far stops receiving ops at LAGSTART;
+                        at CATCHUP A's snapshot is installed INTO that non-fresh replica (RecoverFromSnapshot on an instance
+                        that already holds older state), from then on L receives every op again and must agree with A
 report  = dict(addr,rpc,region,plog_incl,plog=[(s,r)],shard_ids=[..],infos=[info])
 info    = dict(shard,replica,leader,cci,incomplete,pending,members=[(rid,addr)])
 request = dict(type(0..3),shard,members,ccid,rids,addrs,inst,raft,join,restore,app)
@@ -18,6 +21,7 @@ import json, os, re
 from vlib import *
 
 UNK = 888888
+CTL = ("FORK", "LAGSTART", "CATCHUP")      # control ops: not commands, not queries
 KEYNAMES = {"deployment-id": 1, "launched-flag": 2, "bootstrapped-flag": 3, "election-key": 4, "regions-key": 5}
 
 
@@ -281,7 +285,25 @@ class Engine:
             lines += ["N %d" % rid for (_, rid) in live]
             meta += [(None, None, None)] * len(live)
             nf = 0
+            lag_rid, lagging = None, False
+            if any(op[0] == "CATCHUP" for op in ops):
+                lag_rid = base + 40
+                live.append(("L", lag_rid))
+                lines.append("N %d" % lag_rid)
+                meta.append((None, None, None))
             for oi, op in enumerate(ops):
+                if op[0] == "LAGSTART":
+                    if lag_rid is not None and not lagging:
+                        lagging = True
+                        live = [x for x in live if x[0] != "L"]
+                    continue
+                if op[0] == "CATCHUP":
+                    if lag_rid is not None and lagging:
+                        lines += ["SNAP %d" % base, "RESTI %d %d" % (lag_rid, base)]
+                        meta += [(ti, oi, "lagsnap"), (ti, oi, "lagrest")]
+                        lagging = False
+                        live.append(("L", lag_rid))
+                    continue
                 if op[0] == "FORK":
                     if not with_replicas:
                         continue
@@ -315,9 +337,9 @@ class Engine:
             if m[0] is None:
                 continue
             ti, oi, nm = m
-            if nm in ("forksnap", "forkrest"):
+            if nm in ("forksnap", "forkrest", "lagsnap", "lagrest"):
                 if not rest.startswith("ok"):
-                    results[ti]["forkfail"].append((oi, nm, rest))
+                    results[ti]["forkfail"].append((oi, "forksnap" if nm.endswith("snap") else "forkrest", rest))
                 continue
             results[ti]["obs"].setdefault(nm, {})[oi] = rest
         return results
@@ -378,7 +400,7 @@ class Engine:
             idx, items = [], []
             obsA = results[ti]["obs"].get("A", {})
             for oi, op in enumerate(ops):
-                if op[0] == "FORK":
+                if op[0] in CTL:
                     continue
                 idx.append(oi)
                 items.append(self.item_coq(op, self.canon(op, obsA.get(oi, "panic"))))
@@ -438,6 +460,8 @@ class Engine:
                 if op[0] == "FORK":
                     nfork += 1
                     forkname["F%d" % nfork] = oi
+                if op[0] == "CATCHUP":
+                    forkname["L"] = oi
             for nm, o in obs.items():
                 if nm == "A" or forkname.get(nm) in badforks:
                     continue
@@ -463,7 +487,7 @@ def model_answer(eng, ops, obsA, upto):
     ck = eng.ck
     items = []
     for oi, op in enumerate(ops[:upto + 1]):
-        if op[0] == "FORK":
+        if op[0] in CTL:
             continue
         items.append(eng.item_coq(op, eng.canon(op, obsA.get(oi, "panic"))))
     body = ["From stdpp Require Import gmap.", "From Drummer.Model Require Import DB DBRun.", "Local Open Scope N_scope.",
